@@ -4,7 +4,6 @@ import (
 	"fmt"
 	"sort"
 	"strings"
-	"sync/atomic"
 
 	"github.com/lni/vfs"
 	"pgregory.net/rapid"
@@ -115,53 +114,46 @@ func (c *crashRun) runTo(open Opener, k int64, trace bool) (*vfs.MemFS, *FSCtl, 
 	}
 	ctl.CutAt(k)
 	fs := NewCtlFS(mem, ctl)
-	atomic.StoreInt64(&ctl.Inflight, -2) // -2: initial open
+	ctl.SetPhase(-2) // initial open
 	var bounds []int64
 	s, err := OpenStore(fs, open)
 	if err != nil {
 		c.fail("open-error-without-fault", k, "initial open failed: %v", err)
 	}
-	atomic.StoreInt64(&ctl.Inflight, -1)
-	done := 0
+	ctl.SetPhase(-1)
 	for i, o := range c.w.ops {
-		if cut, _, _ := ctl.Cut(); cut {
+		bounds = append(bounds, ctl.Ops())
+		// The cut may fire on any goroutine (the store's background workers issue
+		// FS operations too). Which calls count as acknowledged is therefore
+		// decided by the FS controller under the same lock that orders the cut:
+		// a call that starts after the cut is never made, one that returns before
+		// it is acknowledged, one that spans it is the call in flight.
+		if !ctl.BeginCall(i) {
 			break
 		}
-		bounds = append(bounds, ctl.Ops())
-		atomic.StoreInt64(&ctl.Inflight, int64(i))
-		err, panicked := s.ExecSafe(o, c.w.models[i])
-		atomic.StoreInt64(&ctl.Inflight, -1)
+		err, _ := s.ExecSafe(o, c.w.models[i])
+		ctl.EndCall()
 		if cut, _, _ := ctl.Cut(); cut {
-			// the power went off before or while this call ran (the cut may fire on a
-			// background goroutine of the store - Tan's obsolete file deleter, Pebble's
-			// flush/compaction - in the window between the check at the top of the loop
-			// and the start of the call): the call is not acknowledged. When the cut
-			// fired inside the call, ctl recorded it as the call in flight.
 			break
 		}
 		if err != nil {
-			_ = panicked
 			_ = s.Close()
 			c.fail("call-error-without-fault", k, "%s failed although no error was injected: %v", o.String(), err)
 		}
-		done = i + 1
 	}
 	bounds = append(bounds, ctl.Ops())
 	// power goes off at the latest now
-	forced := ctl.ForceCut()
+	ctl.ForceCut()
 	func() {
 		defer func() { _ = recover() }()
 		_ = s.Close()
 	}()
-	_, _, inflight := ctl.Cut()
+	done, inflight := ctl.CutState()
 	fl := -1
-	if !forced {
-		switch {
-		case inflight >= 0:
-			fl = int(inflight)
-			done = fl
-		case inflight == -2:
-			done = 0
+	if inflight >= 0 {
+		fl = int(inflight)
+		if done != fl {
+			panic(fmt.Sprintf("harness: %d calls returned before the cut but call %d was in flight", done, fl))
 		}
 	}
 	return mem, ctl, done, fl, bounds
